@@ -40,9 +40,11 @@ import (
 )
 
 type program struct {
-	Q string `json:"q"`
-	I string `json:"i"`
-	B string `json:"b"` // builtin under test (for the violation key)
+	Q    string   `json:"q"`
+	I    string   `json:"i"`
+	B    string   `json:"b"`           // builtin under test (for the violation key)
+	L    []string `json:"l,omitempty"` // when HasL: compiled with WithModuleLoader(NewModuleLoader(L))
+	HasL bool     `json:"hasl,omitempty"`
 }
 
 func decodeInput(s string) any {
@@ -117,6 +119,10 @@ func childMain(path string) {
 		if err := json.Unmarshal(sc.Bytes(), &p); err != nil {
 			fmt.Fprintln(os.Stderr, err)
 			os.Exit(3)
+		}
+		if p.HasL {
+			fmt.Fprintln(w, outcomeLine(p.Q, decodeInput(p.I), gojq.WithModuleLoader(gojq.NewModuleLoader(p.L))))
+			continue
 		}
 		fmt.Fprintln(w, outcomeLine(p.Q, decodeInput(p.I)))
 	}
@@ -233,6 +239,14 @@ func genPrograms(ctx *common.Ctx) []program {
 	for _, c := range compileRejects {
 		ps = append(ps, program{Q: c.q, I: "null", B: "reject"})
 	}
+	// a module loader grants its directories and nothing else: with no usable directory (empty
+	// entries, a home-relative entry that does not exist or cannot be resolved, a missing
+	// directory) no file of the working directory or of $HOME may be found
+	for _, paths := range [][]string{{}, {""}, {"", ""}, {"", "/nonexistent-verif-dir"}, {"~/verif-no-such-subdir"}, {"/nonexistent-verif-dir"}, {"$ORIGIN/verif-no-such-subdir"}} {
+		for _, q := range []string{`import "a" as a; a::f`, `include "a"; f`, `import "a" as $d; $d`, `"a" | modulemeta`, `import "a" as a {search: ""}; a::f`, `include "a" {search: "/nonexistent-verif-dir"}; f`} {
+			ps = append(ps, program{Q: q, I: "null", B: "loader-grant", L: paths, HasL: true})
+		}
+	}
 	// sanity of the harness: the excluded functions DO see the variation
 	ps = append(ps, program{Q: "0 | localtime", I: "null", B: "sanity:tz"}, program{Q: "0 | strflocaltime(\"%H %Z\")", I: "null", B: "sanity:tz"})
 	return ps
@@ -272,7 +286,7 @@ func runChild(v variant, progFile string) ([]string, error) {
 }
 
 func ambientOracle(ctx *common.Ctx) {
-	orc := ctx.NewOracle("ambient", "generated programs over every builtin (name/arity from `builtins`, except now/localtime/strflocaltime/input*/halt*/debug/stderr/env) plus operator, format and date programs, compiled without options in child processes under 4 environments (TZ, HOME with a hostile ~/.jq, extra variables), working directories (with a.jq / a.json present) and stdin contents: canonical outcomes must be byte-identical; env/$ENV probes must show {}; input/inputs/import/include must fail to compile; distinct = distinct (program, input) pairs")
+	orc := ctx.NewOracle("ambient", "generated programs over every builtin (name/arity from `builtins`, except now/localtime/strflocaltime/input*/halt*/debug/stderr/env) plus operator, format and date programs, compiled without options in child processes under 4 environments (TZ, HOME with a hostile ~/.jq, extra variables), working directories (with a.jq / a.json present) and stdin contents: canonical outcomes must be byte-identical; env/$ENV probes must show {}; input/inputs/import/include must fail to compile; with a module loader that was given no existing directory (empty, unresolvable or missing entries) nothing may be found either; distinct = distinct (program, input) pairs")
 	progs := genPrograms(ctx)
 	tmp, err := os.MkdirTemp("", "verif-c19-")
 	if err != nil {
@@ -375,6 +389,10 @@ func ambientOracle(ctx *common.Ctx) {
 			if !strings.Contains(msg, m) {
 				ctx.Violate("ambient:not-rejected:"+p.Q, fmt.Sprintf("`%s` without options: %s %q, expected a compile error containing %q", p.Q, first, msg, m), map[string]any{"query": p.Q, "observed": first + " " + msg})
 			}
+		}
+		if p.B == "loader-grant" && cls == "outputs" {
+			ctx.Violate("ambient:loader-grant:"+p.Q+fmt.Sprint(p.L), fmt.Sprintf("`%s` with NewModuleLoader(%q) finds a module although no existing directory was granted: %s", p.Q, p.L, first),
+				map[string]any{"query": p.Q, "loader_paths": p.L, "working_directory": variants[0].dir, "observed": first})
 		}
 		if cls == "panic" {
 			ctx.Violate("ambient:panic:"+p.B, fmt.Sprintf("`%s` on %s panics: %s", p.Q, p.I, first), map[string]any{"query": p.Q, "input": p.I, "observed": first})
